@@ -433,6 +433,56 @@ def guarded_by_variant(fn, event_bb, call_pat, variant_idx):
     return None
 
 
+def guarded_by_variant_strict(fn, event_bb, call_pat, variant_idx):
+    """Like guarded_by_variant, but the switch must be on the discriminant of the call's result *itself* (whole-value
+    copies / moves and `?`), not of a payload extracted from it (`match e { Full(..) => .. }` inside the Err arm)."""
+    cfg = fn.cfg
+    for cbb, t in calls(fn, call_pat):
+        same = {t["dst"]["l"]}
+        changed = True
+        while changed:
+            changed = False
+            for b in fn.blocks:
+                for st in b["st"]:
+                    if "a" not in st or st["a"]["p"]:
+                        continue
+                    r = st["r"]
+                    if r.get("k") == "use" and r.get("ops"):
+                        pl = op_place(r["ops"][0])
+                        if pl is not None and not pl["p"] and pl["l"] in same and st["a"]["l"] not in same:
+                            same.add(st["a"]["l"])
+                            changed = True
+                tt = b["t"]
+                if tt["k"] == "call" and call_matches(tt, r"Try::branch$") and tt.get("args"):
+                    pl = op_place(tt["args"][0])
+                    if pl is not None and not pl["p"] and pl["l"] in same and tt["dst"]["l"] not in same:
+                        same.add(tt["dst"]["l"])
+                        changed = True
+        discr = set()
+        for b in fn.blocks:
+            for st in b["st"]:
+                r = st.get("r", {})
+                if r.get("k") == "discr" and "pl" in r and not r["pl"]["p"] and r["pl"]["l"] in same:
+                    discr.add(st["a"]["l"])
+        for bi, b in enumerate(fn.blocks):
+            tt = b["t"]
+            if tt["k"] != "switch":
+                continue
+            pl = op_place(tt["op"])
+            if pl is None or pl["l"] not in discr:
+                continue
+            tg = dict(tt["tg"])
+            tgt = tg.get(str(variant_idx))
+            if tgt is None:
+                continue
+            others = [x for v, x in tg.items() if v != str(variant_idx)] + [tt["ow"]]
+            if tgt in others:
+                continue
+            if cfg.edge_dominates(bi, tgt, event_bb):
+                return cbb
+    return None
+
+
 # ---- value flow ---------------------------------------------------------------
 
 def arg_origin_calls(fn, term, arg_idx, through_calls=flow_call, follow_fields=False):
